@@ -5,6 +5,7 @@ import (
 	"fmt"
 	"massnet.org/mass-wallet/masswallet/keystore/wordlists"
 	"math/big"
+	"sync"
 
 	"github.com/massnetorg/mass-core/massutil"
 	"github.com/massnetorg/mass-core/massutil/bech32"
@@ -23,6 +24,7 @@ type RefWallet struct {
 	// bytes, so the implementation's derivation is known to deviate (C14 finding).
 	Affected bool
 	path     map[string][]byte
+	cache    map[[2]uint32]*RefAddr // derived addresses (pure function of branch and index)
 }
 
 // RefAddr is one derived address.
@@ -69,6 +71,28 @@ func (w *RefWallet) Addr(i uint32) (*RefAddr, error) { return w.AddrBranch(0, i)
 
 // AddrBranch derives the address at index i of branch 0 (external) or 1 (internal).
 func (w *RefWallet) AddrBranch(branch, i uint32) (*RefAddr, error) {
+	ck := [2]uint32{branch, i}
+	addrCacheMu.Lock()
+	if a := w.cache[ck]; a != nil {
+		addrCacheMu.Unlock()
+		return a, nil
+	}
+	addrCacheMu.Unlock()
+	a, err := w.addrBranch(branch, i)
+	if err == nil {
+		addrCacheMu.Lock()
+		if w.cache == nil {
+			w.cache = map[[2]uint32]*RefAddr{}
+		}
+		w.cache[ck] = a
+		addrCacheMu.Unlock()
+	}
+	return a, err
+}
+
+var addrCacheMu sync.Mutex
+
+func (w *RefWallet) addrBranch(branch, i uint32) (*RefAddr, error) {
 	bk := w.ext
 	if branch != 0 {
 		bk = refChild(w.acct, branch)
